@@ -1,5 +1,5 @@
-CONSTANTS Inits = {0, 5, 10}
- MaxN = 3
+CONSTANTS Inits = {0}
+ MaxN = 4
 INIT Init
 NEXT Next
 INVARIANT GraphOK
